@@ -61,14 +61,17 @@ func writePruneWatermark(walDir string, height types.Height) error {
 		}
 		return errors.Join(writeErr, closeErr)
 	}
+	verifPoint("watermark-tmp-written")
 
 	if err := os.Rename(tmpPath, path); err != nil {
 		_ = os.Remove(tmpPath)
 		return fmt.Errorf("writePruneWatermark: replace watermark: %w", err)
 	}
+	verifPoint("watermark-renamed")
 	if err := syncDir(walDir); err != nil {
 		return fmt.Errorf("writePruneWatermark: sync watermark directory: %w", err)
 	}
+	verifPoint("watermark-dir-synced")
 	return nil
 }
 
